@@ -514,4 +514,152 @@ def resolveSetting (chk : String → Option (Option Bool)) (checkBasis : Bool) (
     | some (some t1), some (some t2) => if t1 then some "t1" else if t2 then some "t2" else none
     | _, _ => none
 
+/-! ### round 6: the call as the user writes it (multiplier arguments), the face-rounding ladder of `rotate`, the integer
+matrices the conversions hand to `rotate`.  The definitions below are tied to the CURRENT source by
+`Atomman/Generated/SupercellSource.lean` (regenerated on every check) and `Proofs/C04_Source.lean` (`gen_…_eq_model`). -/
+
+/-- a multiplier argument of `supersize` as the caller writes it: an integer, a 2-tuple of integers, anything else
+    (float, list, tuple of another length or with non-integer entries). -/
+inductive SizeArg where
+  | int (n : Int)
+  | pair (lo hi : Int)
+  | other
+deriving Repr, DecidableEq
+
+/-- the argument check of one axis: `value` = `ValueError('Cannot multiply system dimension by zero')`, `type` =
+    `TypeError('Invalid system multipliers')`. -/
+def SizeArg.resolve : SizeArg → Except String Size
+  | .int n => match Size.ofInt? n with
+    | some s => .ok s
+    | none => .error "value"
+  | .pair lo hi =>
+    if lo ≤ 0 ∧ 0 ≤ hi then (if hi - lo = 0 then .error "value" else .ok ⟨lo, hi⟩) else .error "type"
+  | .other => .error "type"
+
+/-- the loop over the three axes: the first axis that is refused decides the error. -/
+def resolveSizes (a0 a1 a2 : SizeArg) : Except String (Size × Size × Size) :=
+  match a0.resolve with
+  | .error e => .error e
+  | .ok sa =>
+    match a1.resolve with
+    | .error e => .error e
+    | .ok sb =>
+      match a2.resolve with
+      | .error e => .error e
+      | .ok sc => .ok (sa, sb, sc)
+
+/-- `System.supersize(a_size, b_size, c_size)` as called. -/
+def supersizeApi {K : Type} [Add K] [Sub K] [Mul K] [Div K] [IntCast K]
+    (b : Box K) (a0 a1 a2 : SizeArg) (atoms : List (Atom K)) : Except String (Box K × List (Atom K)) :=
+  match resolveSizes a0 a1 a2 with
+  | .error e => .error e
+  | .ok (sa, sb, sc) => .ok (supersize b sa sb sc atoms)
+
+section
+variable {K : Type} [Add K] [Sub K] [Mul K] [Div K] [IntCast K] [Zero K] [One K] [LT K] [LE K]
+  [DecidableLT K] [DecidableLE K]
+
+/-- one relative coordinate through one rung of the ladder, the two statements in the order of the code:
+    `spos[isclose(spos, 0.0, rtol=0.0, atol=atol)] = 0.0` then `spos[isclose(spos, 1.0, rtol=0.0, atol=atol)] = 1.0`. -/
+def roundFaces (atol s : K) : K :=
+  let s1 := if closeK 0 atol s 0 then 0 else s
+  if closeK 0 atol s1 1 then 1 else s1
+
+/-- the atom is kept at this rung: rounded, then `0 ≤ s < 1` on the three coordinates. -/
+def ladderKeep (atol : K) (s : V3 K) : Bool :=
+  inHalfOpen ⟨roundFaces atol s.x, roundFaces atol s.y, roundFaces atol s.z⟩
+
+/-- the new cell and the translated bounding supercell of `rotate` (what the filter runs over). -/
+def rotateSup (fl : K → Int) (b : Box K) (U : M3 Int) (atoms : List (Atom K)) : Box K × List (Atom K) :=
+  let (sa, sb, sc) := rotateSizes U
+  let orel := b.cartToRel ⟨0, 0, 0⟩
+  let nsh : V3 K := ⟨((rintK fl (0 - orel.x) : Int) : K), ((rintK fl (0 - orel.y) : Int) : K),
+                     ((rintK fl (0 - orel.z) : Int) : K)⟩
+  let shift := M3.vecMul nsh b.vects
+  (⟨newVects U b.vects, ⟨0, 0, 0⟩⟩, (supersizeAtoms b sa sb sc atoms).map fun a => { a with pos := a.pos - shift })
+
+/-- the atoms one rung keeps. -/
+def ladderFilter (atol : K) (nb : Box K) (sup : List (Atom K)) : List (Atom K) :=
+  sup.filter fun a => ladderKeep atol (nb.cartToRel a.pos)
+
+/-- the loop `for atol in tol:` — the first rung whose selection has the expected number of atoms. -/
+def ladderLoop (want : Nat) (nb : Box K) (sup : List (Atom K)) : List K → Option (List (Atom K))
+  | [] => none
+  | t :: ts => if (ladderFilter t nb sup).length = want then some (ladderFilter t nb sup) else ladderLoop want nb sup ts
+
+/-- `System.rotate` up to `normalize` WITH the tolerance ladder (`tols` = the `tol` argument as a list):
+    `value` = parallel / planar vectors, `filter` = "Filtering failed" after the last rung. -/
+def rotateLadder (fl : K → Int) (tols : List K) (b : Box K) (U : M3 Int) (atoms : List (Atom K)) :
+    Except String (Box K × List (Atom K)) :=
+  if U = M3.one then .ok (rotateIdentity fl b atoms) else
+  if M3.det U = 0 then .error "value" else
+  let r := rotateSup fl b U atoms
+  match ladderLoop ((M3.det U).natAbs * atoms.length) r.1 r.2 tols with
+  | some kept => .ok (r.1, kept)
+  | none => .error "filter"
+
+end
+
+/-- `multip`: the primitive supercell `conventional_to_primitive` builds is 3x3x3 for the trigonal settings, 2x2x2 otherwise. -/
+def multip (setting : String) : Nat := if ["t1", "t2", "t"].contains setting then 3 else 2
+
+/-- `lattice_vectors` of `miller.vector_primitive_to_conventional` as (denominator, numerators): rows = the primitive
+    cell vectors in conventional coordinates. -/
+def p2cTable : String → Option (Int × M3 Int)
+  | "p" => some (1, ⟨⟨1, 0, 0⟩, ⟨0, 1, 0⟩, ⟨0, 0, 1⟩⟩)
+  | "a" => some (2, ⟨⟨2, 0, 0⟩, ⟨0, 1, 1⟩, ⟨0, -1, 1⟩⟩)
+  | "b" => some (2, ⟨⟨1, 0, 1⟩, ⟨0, 2, 0⟩, ⟨-1, 0, 1⟩⟩)
+  | "c" => some (2, ⟨⟨1, 1, 0⟩, ⟨-1, 1, 0⟩, ⟨0, 0, 2⟩⟩)
+  | "i" => some (2, ⟨⟨1, 1, 1⟩, ⟨-1, 1, -1⟩, ⟨-1, -1, 1⟩⟩)
+  | "f" => some (2, ⟨⟨1, 1, 0⟩, ⟨0, 1, 1⟩, ⟨1, 0, 1⟩⟩)
+  | "t1" => some (3, ⟨⟨2, 1, 1⟩, ⟨-1, 1, 1⟩, ⟨-1, -2, 1⟩⟩)
+  | "t2" => some (3, ⟨⟨-2, -1, 1⟩, ⟨1, -1, 1⟩, ⟨1, 2, 1⟩⟩)
+  | _ => none
+
+/-- `lattice_vectors` of `miller.vector_conventional_to_primitive`: rows = the conventional cell vectors in primitive
+    coordinates (integers). -/
+def c2pTable : String → Option (M3 Int)
+  | "p" => some ⟨⟨1, 0, 0⟩, ⟨0, 1, 0⟩, ⟨0, 0, 1⟩⟩
+  | "a" => some ⟨⟨1, 0, 0⟩, ⟨0, 1, -1⟩, ⟨0, 1, 1⟩⟩
+  | "b" => some ⟨⟨1, 0, -1⟩, ⟨0, 1, 0⟩, ⟨1, 0, 1⟩⟩
+  | "c" => some ⟨⟨1, -1, 0⟩, ⟨1, 1, 0⟩, ⟨0, 0, 1⟩⟩
+  | "i" => some ⟨⟨0, -1, -1⟩, ⟨1, 1, 0⟩, ⟨1, 0, 1⟩⟩
+  | "f" => some ⟨⟨1, -1, 1⟩, ⟨1, 1, -1⟩, ⟨-1, 1, 1⟩⟩
+  | "t1" => some ⟨⟨1, -1, 0⟩, ⟨0, 1, -1⟩, ⟨1, 1, 1⟩⟩
+  | "t2" => some ⟨⟨-1, 1, 0⟩, ⟨0, -1, 1⟩, ⟨1, 1, 1⟩⟩
+  | _ => none
+
+def V3.idiv? (m d : Int) (v : V3 Int) : Option (V3 Int) :=
+  if (m * v.x) % d = 0 ∧ (m * v.y) % d = 0 ∧ (m * v.z) % d = 0 then some ⟨m * v.x / d, m * v.y / d, m * v.z / d⟩ else none
+
+/-- `(m · N) / d` when every entry divides exactly. -/
+def scaleDiv? (m d : Int) (N : M3 Int) : Option (M3 Int) :=
+  match V3.idiv? m d N.r0, V3.idiv? m d N.r1, V3.idiv? m d N.r2 with
+  | some a, some b, some c => some ⟨a, b, c⟩
+  | _, _, _ => none
+
+/-- the vectors `conventional_to_primitive` hands to `rotate`:
+    `vector_primitive_to_conventional(multip * identity(3), setting)` = `multip · table[setting]`; `none` = unknown setting
+    (`'t'` itself has no table) or a non-integer matrix (which `rotate` would refuse). -/
+def c2pUvws (setting : String) : Option (M3 Int) :=
+  match p2cTable setting with
+  | some (d, N) => scaleDiv? (multip setting) d N
+  | none => none
+
+/-- the vectors `primitive_to_conventional` hands to `rotate`: `vector_conventional_to_primitive(identity(3), setting)`. -/
+def p2cUvws (setting : String) : Option (M3 Int) := c2pTable setting
+
+/-- keyword defaults of `conventional_to_primitive` (`rtol`, `atol` as num/den; `smallshift` component; flags). -/
+structure C2PDefaults where
+  setting : String
+  rtol : Nat × Nat
+  atol : Nat × Nat
+  smallshift : Nat × Nat
+  checkBasis : Bool
+  checkFamily : Bool
+  returnTransform : Bool
+deriving Repr, DecidableEq
+
+def c2pDefaults : C2PDefaults := ⟨"p", (1, 100000), (1, 100000000), (1, 1000), true, true, false⟩
+
 end Atomman.C04
